@@ -19,6 +19,17 @@ DefaultPresets == << [name |-> "off", pct |-> 0], [name |-> "low", pct |-> 15], 
                      [name |-> "high", pct |-> 75], [name |-> "full", pct |-> 100] >>
 DefaultInit == [preset |-> "off", index |-> 0, pct |-> 0]
 
+(* Configuration = the SEQUENCE of constructor options handed to NewModel,  *)
+(* each kind at most once: [kind |-> "presets", presets], [kind |-> "init", *)
+(* init] (WithInitialFanSpeed or a resource initial value), [kind |->      *)
+(* "clock"].  What a model is configured with does not depend on the order *)
+(* of the options: the presets given are the presets, the initial fan      *)
+(* speed given is the initial fan speed.                                   *)
+OptsOf(opts, kind) == SelectSeq(opts, LAMBDA o : o.kind = kind)
+HasOpt(opts, kind) == OptsOf(opts, kind) # <<>>
+ConfPresets(opts) == IF HasOpt(opts, "presets") THEN OptsOf(opts, "presets")[1].presets ELSE DefaultPresets
+ConfInit(opts) == IF HasOpt(opts, "init") THEN OptsOf(opts, "init")[1].init ELSE DefaultInit
+
 Known(ps, p) == \E k \in 1..Len(ps) : ps[k].name = p
 \* first position (1-based) of the preset named p
 Pos(ps, p) == CHOOSE k \in 1..Len(ps) : ps[k].name = p /\ \A j \in 1..(k - 1) : ps[j].name # p
